@@ -3,7 +3,7 @@
 ** Script operations (dispatched from sfh.c's run_line, one transcript line each):
 **
 **   ledger begin                 warm up (stdio buffers, the library's own lazily initialised state), make a private TMPDIR
-**                                for this process, install malloc/free hooks of the ASan runtime, then take the baseline:
+**                                for this process and make it the working directory, install malloc/free hooks of the ASan runtime, then take the baseline:
 **                                live heap blocks/bytes, the descriptor table (/proc/self/fd), the TMPDIR listing.
 **   ledger peek hN               owners of handle hN as the private struct shows them (no hook in the library: the harness
 **                                is compiled against the tree's own common.h):
@@ -20,6 +20,13 @@
 **                                fds=<count>[:fd>target,...] tmp=<count>[:name,...]   (descriptors / TMPDIR entries that were not there at begin)
 **   ledger rsrc sN <ext> <hex|trunc:n|rm>    rewrite the resource-fork side file `._sN.<ext>` of the path-route scratch file (SD2)
 **   ledger sizes                 sizeof of the blocks the owners point to (evidence only)
+**   ledger rsrc sN <ext> load:sK  copy the side file into store sK (to learn what a valid resource fork looks like)
+**   ledger tryopen sN <r|w|rw|int> fmt=<hex> ch=<n> sr=<n> route=vio|path|fd1|fd0 [ext=x] [rsrc=sK]
+**                                one complete open attempt that owns nothing of sfh.c's handle table and NEVER closes a descriptor the
+**                                library was told to close (close_desc = 1), so that a failing sf_open_fd that forgets it is visible:
+**                                  open=NULL err=<sf_error (NULL)> msglen=<strlen (sf_strerror (NULL))> fdleft=<descriptor handed over still open>
+**                                  open=ok close=<sf_close result> fdleft=<0|1>      (an open that succeeds is closed at once)
+**                                rsrc=sK writes store sK as the `._name` resource-fork side file first (SD2)
 **
 ** Nothing here allocates between the baseline and the measurement except the library.
 */
@@ -43,7 +50,7 @@ static int hooks_on, begun ;
 static long base_blocks, base_bytes ;
 static size_t base_total ;
 static int base_fds [MAX_FDS], n_base_fds ;
-static char tmpdir [256] ;
+static char tmpdir [256], old_cwd [1024] ;
 static int base_store_blocks ;
 static long base_store_bytes ;
 
@@ -150,6 +157,10 @@ ledger_begin (void)
 	snprintf (tmpdir, sizeof (tmpdir), "%s/sfh-tmp-%d", base ? base : "/var/tmp", (int) getpid ()) ;
 	mkdir (tmpdir, 0700) ;
 	setenv ("TMPDIR", tmpdir, 1) ;
+	/* the private directory is also the working directory from here on: a file the library creates under a relative name
+	** (psf_open_tmpfile's fallback, a resource fork looked up with an empty file name) shows up in the `tmp=` listing */
+	if (getcwd (old_cwd, sizeof (old_cwd)) == NULL) old_cwd [0] = 0 ;
+	if (chdir (tmpdir) != 0) { }
 	warm_up () ;
 	if (!hooks_on)
 	{	__sanitizer_install_malloc_and_free_hooks (on_malloc, on_free) ;
@@ -249,6 +260,7 @@ ledger_end (void)
 		unlink (p) ;
 		}
 	printf ("\n") ;
+	if (old_cwd [0] && chdir (old_cwd) != 0) { }
 	rmdir (tmpdir) ;
 	begun = 0 ;
 }
@@ -264,6 +276,17 @@ ledger_rsrc (char **tok, int ntok)
 	{	printf ("ret=%d\n", unlink (path)) ; return ; }
 	if (!strncmp (what, "trunc:", 6))
 	{	printf ("ret=%d\n", truncate (path, atol (what + 6))) ; return ; }
+	if (!strncmp (what, "load:", 5))
+	{	STORE *d = store_get (what + 5) ; long n = 0 ;
+		if (d == NULL || (f = fopen (path, "rb")) == NULL) { printf ("ret=-1\n") ; return ; }
+		fseek (f, 0, SEEK_END) ; n = ftell (f) ; fseek (f, 0, SEEK_SET) ;
+		store_reserve (d, n) ;
+		if (n > 0 && fread (d->buf, 1, n, f) != (size_t) n) { }
+		d->len = n ; d->pos = 0 ;
+		fclose (f) ;
+		printf ("ret=0 len=%ld\n", n) ;
+		return ;
+		}
 	if (!strncmp (what, "flip:", 5))
 	{	/* flip:<offset>:<xor-hex> */
 		long off = atol (what + 5) ; int x = 0xff, c ;
@@ -283,12 +306,82 @@ ledger_rsrc (char **tok, int ntok)
 		}
 }
 
+static const char *
+kvget (char **tok, int ntok, const char *key)
+{	size_t kl = strlen (key) ; int k ;
+	for (k = 0 ; k < ntok ; k++)
+		if (!strncmp (tok [k], key, kl) && tok [k][kl] == '=')
+			return tok [k] + kl + 1 ;
+	return NULL ;
+}
+
+static void
+ledger_tryopen (char **tok, int ntok)
+{	STORE *s = store_get (tok [2]), *rs = NULL ;
+	const char *m = tok [3], *v, *route = kvget (tok, ntok, "route"), *ext = kvget (tok, ntok, "ext"), *base = getenv ("SFH_SCRATCH") ;
+	int mode = !strcmp (m, "r") ? SFM_READ : !strcmp (m, "w") ? SFM_WRITE : !strcmp (m, "rw") ? SFM_RDWR : atoi (m) ;
+	SF_INFO info ;
+	SNDFILE *sf = NULL ;
+	char dir [300], path [400], side [400] ;
+	int fd = -1, close_desc = 1, fdleft = 0 ;
+	FILE *f ;
+	if (s == NULL) { printf ("bad-op\n") ; return ; }
+	memset (&info, 0, sizeof (info)) ;
+	if ((v = kvget (tok, ntok, "fmt"))) info.format = (int) strtol (v, NULL, 16) ;
+	if ((v = kvget (tok, ntok, "ch"))) info.channels = atoi (v) ;
+	if ((v = kvget (tok, ntok, "sr"))) info.samplerate = atoi (v) ;
+	if ((v = kvget (tok, ntok, "rsrc"))) rs = store_get (v) ;
+	if (route == NULL) route = "vio" ;
+	if (!strcmp (route, "vio"))
+	{	if (mode == SFM_WRITE) s->len = 0 ;
+		s->pos = 0 ;
+		sf = sf_open_virtual (&mem_vio, mode, &info, s) ;
+		}
+	else
+	{	snprintf (dir, sizeof (dir), "%s/sfh-try-%d", base ? base : "/var/tmp", (int) getpid ()) ;
+		mkdir (dir, 0700) ;
+		snprintf (path, sizeof (path), "%s/%s.%s", dir, tok [2], ext ? ext : "dat") ;
+		snprintf (side, sizeof (side), "%s/._%s.%s", dir, tok [2], ext ? ext : "dat") ;
+		if (mode != SFM_WRITE && (f = fopen (path, "wb")) != NULL)
+		{	if (s->len > 0) fwrite (s->buf, 1, s->len, f) ;
+			fclose (f) ;
+			}
+		if (rs != NULL && (f = fopen (side, "wb")) != NULL)
+		{	if (rs->len > 0) fwrite (rs->buf, 1, rs->len, f) ;
+			fclose (f) ;
+			}
+		if (!strcmp (route, "path"))
+			sf = sf_open (path, mode, &info) ;
+		else
+		{	close_desc = strcmp (route, "fd0") != 0 ;
+			fd = open (path, mode == SFM_READ ? O_RDONLY : mode == SFM_WRITE ? (O_WRONLY | O_CREAT | O_TRUNC) : (O_RDWR | O_CREAT), 0600) ;
+			sf = sf_open_fd (fd, mode, &info, close_desc) ;
+			}
+		}
+	if (sf == NULL)
+	{	int e = sf_error (NULL) ;
+		const char *msg = sf_strerror (NULL) ;
+		if (fd >= 0 && close_desc) fdleft = fcntl (fd, F_GETFD) != -1 ;
+		printf ("open=NULL err=%d msglen=%d fdleft=%d\n", e, (int) (msg ? strlen (msg) : 0), fdleft) ;
+		}
+	else
+	{	int r = sf_close (sf) ;
+		if (fd >= 0 && close_desc) fdleft = fcntl (fd, F_GETFD) != -1 ;
+		printf ("open=ok close=%d fdleft=%d\n", r, fdleft) ;
+		}
+	if (fd >= 0 && !close_desc) close (fd) ;		/* ours */
+	if (strcmp (route, "vio"))
+	{	unlink (path) ; unlink (side) ; rmdir (dir) ;
+		}
+}
+
 void
 op_ledger (char **tok, int ntok)
 {	if (ntok >= 2 && !strcmp (tok [1], "begin")) ledger_begin () ;
 	else if (ntok >= 3 && !strcmp (tok [1], "peek")) ledger_peek (tok [2]) ;
 	else if (ntok >= 2 && !strcmp (tok [1], "end")) ledger_end () ;
 	else if (ntok >= 4 && !strcmp (tok [1], "rsrc")) ledger_rsrc (tok, ntok) ;
+	else if (ntok >= 4 && !strcmp (tok [1], "tryopen")) ledger_tryopen (tok, ntok) ;
 	else if (ntok >= 2 && !strcmp (tok [1], "sizes"))
 		printf ("ok psf=%ld header=%d bext=%ld cart=%ld instrument=%ld loop=%ld iterator=%ld\n", (long) sizeof (SF_PRIVATE), 256,
 				(long) sizeof (SF_BROADCAST_INFO_16K), (long) sizeof (SF_CART_INFO_16K), (long) sizeof (SF_INSTRUMENT), (long) sizeof (SF_LOOP_INFO),
